@@ -52,6 +52,39 @@ def run(ctx):
     check_accumulator_window(ctx, facts)
     check_dzkp_consts(ctx, facts)
     check_invert_users(ctx, facts)
+    if ctx.cfg == "X":
+        check_clmul_widening(ctx, facts)
+
+
+CONFIGS_QUICK = ["Q", "X"]
+CONFIGS_THOROUGH = ["Q", "P", "M", "N", "X"]
+
+
+def check_clmul_widening(ctx, facts):
+    """With the pclmulqdq target feature (CI's release / extra / slow jobs, any `-C target-cpu=native` build) Galois-field
+    multiplication goes through `_mm_clmulepi64_si128` and reads the 128-bit product back as two i64 lanes.  A lane whose
+    top bit is set must be widened as an unsigned value: `lane as u128` on an i64 sign-extends and ORs 64 one-bits into
+    the upper half of the product (x * y is then wrong whenever the unreduced product has an x^63 term - Gf40Bit)."""
+    ctx.rule("CLMUL-widen (config X, target feature pclmulqdq): in ff::galois_field no integer cast widens a signed value (iN as a wider type sign-extends): a lane read with _mm_extract_epi64 goes i64 -> u64 (same width) -> u128")
+    n_lane, n_cast = 0, 0
+    for b in facts.non_test_bodies():
+        if not b.path.startswith("ff::galois_field::"):
+            continue
+        n_lane += len(flow.find_calls(b, re.compile(r"_mm_extract_epi64$")))
+        for bb, idx, st in b.iter_assigns():
+            r = st["r"]
+            if r["k"] != "cast" or r.get("ck") != "IntToInt":
+                continue
+            src = b.local_ty(F.op_local(r["o"])) if F.op_local(r["o"]) is not None else None
+            sr, tr = R.ty_range(src or ""), R.ty_range(r.get("ty") or "")
+            if not sr or not tr or sr[0] >= 0:
+                continue
+            n_cast += 1
+            widens = (tr[1] - tr[0]) > (sr[1] - sr[0])
+            ctx.ob("CLMUL-widen", f"{F.short(b.path, 2)}#{n_cast}:{src}->{r.get('ty')}", not widens,
+                   "a signed value is only reinterpreted at the same width" if not widens else f"`{src} as {r.get('ty')}` sign-extends: a product lane with its top bit set puts 64 one-bits into the upper half of the carry-less product, so multiplication in the wide binary fields is wrong",
+                   site_of(b, bb, idx))
+    ctx.floor("CLMUL-widen", "lanes read back from the carry-less multiply (is the hardware path compiled in this configuration?)", n_lane, 1)
 
 
 INVERT_USERS = {
